@@ -3,7 +3,7 @@ from __future__ import annotations
 
 import ast
 
-from ..engine import AnalysisError, PropertySpec, norm
+from ..engine import AnalysisError, MechanismMissing, PropertySpec, norm
 from ..pyutil import call_name, calls, const_str, is_name, walk_local
 
 XML = "src/pymoca/backends/xml/generator.py"
@@ -63,7 +63,7 @@ def r25_1(ctx, rep):
             any(isinstance(s, ast.Assign) and is_name(s.targets[0], "op_name") and norm(s.value) == "tree.operator" for s in ast.walk(fn))
     rep.ob(R, "%s:%s.exitExpression" % (XML, CLS), "operator name", ok, "the element's operator name must be the expression's operator")
     if n < 6:
-        raise AnalysisError(R, "fewer than 6 child comprehensions found in XmlGenerator")
+        raise MechanismMissing(R, "fewer than 6 child comprehensions found in XmlGenerator")
 
 
 def _symbol_vars(fn):
@@ -111,7 +111,7 @@ def r25_2(ctx, rep):
                        "side(s) %s of this equation are the Symbol object itself, which is also a child of the class: in XML the "
                        "element is moved, the equation ends up with one side only (use a ComponentRef to the symbol)" % bad)
     if n < 4:
-        raise AnalysisError(R, "fewer than 4 Equation constructions found in tree.py")
+        raise MechanismMissing(R, "fewer than 4 Equation constructions found in tree.py")
 
 
 # -- seeded variants ---------------------------------------------------------
